@@ -235,6 +235,12 @@ class NamedObject:
             ud = u._dsl
             if hasattr( ud, "full_name" ) and hasattr( ud, "parent_obj" ):
               if ud.parent_obj is s and ud._my_name == name:
+                if ud._my_indices != indices:
+                  # s.x.insert( 0, obj ); s.x += [ ... ]: the names of the
+                  # old elements no longer say where they are
+                  raise FieldReassignError(f"The attempt to assign hardware construct to field {name} is illegal:\n"
+                                           f" - {ud.my_name} of top{repr(s)[1:]} now sits at position "
+                                           f"{''.join( f'[{x}]' for x in indices )}: the list was changed in place after it had been assigned.")
                 continue # named by an earlier assignment of this list
               # s.ws = [ s.a, s.b ] or s.outs = [ m.out for m in s.subs ]: one
               # object under two names would be renamed or simulated as two
